@@ -21,6 +21,7 @@ Definition quote_reads_back (b : byte) : bool :=
 Definition quote_ends_string (b : byte) : bool :=
   match go_quote_byte b with
   | s :: e :: _ => beqb s c_bsl && match gj_escape e with Some _ => false | None => true end
+                   && negb (beqb e "u"%byte)
   | _ => false
   end.
 
@@ -52,10 +53,56 @@ Lemma quote_byte_bad b rest :
 Proof.
   intros H1 H2. pose proof (quote_ends_string_bad b H1 H2) as H. unfold quote_ends_string in H.
   destruct (go_quote_byte b) as [|x [|e tl]]; try discriminate H.
-  apply andb_true_iff in H. destruct H as [Hx Hd]. apply beqb_eq in Hx. subst x.
+  apply andb_true_iff in H. destruct H as [H Hu]. apply andb_true_iff in H. destruct H as [Hx Hd].
+  apply beqb_eq in Hx. subst x. apply negb_true_iff in Hu.
   cbn [app gjson_unescape]. change (b2n c_bsl <? 32)%N with false. rewrite beqb_refl.
-  destruct (gj_escape e); [discriminate Hd|reflexivity].
+  destruct (gj_escape e); [discriminate Hd|]. rewrite Hu. reflexivity.
 Qed.
+
+(* escapeBody, then gjson: every byte comes back *)
+Definition body_reads_back (b : byte) : bool :=
+  match escape_body_byte b with
+  | [x] => beqb x b && negb (b2n x <? 32)%N && negb (beqb x c_bsl)
+  | [s; e] => beqb s c_bsl && match gj_escape e with Some d => beqb d b | None => false end
+  | [s; u; h1; h2; h3; h4] =>
+      beqb s c_bsl && match gj_escape u with Some _ => false | None => true end && beqb u "u"%byte
+      && (gj_rune h1 h2 h3 h4 <? 128)%N && beqb (n2b (gj_rune h1 h2 h3 h4)) b
+  | _ => false
+  end.
+
+Lemma body_reads_back_all b : body_reads_back b = true.
+Proof. destruct b; vm_compute; reflexivity. Qed.
+
+Lemma escape_body_byte_ok b rest :
+  gjson_unescape (escape_body_byte b ++ rest) = b :: gjson_unescape rest.
+Proof.
+  pose proof (body_reads_back_all b) as H. unfold body_reads_back in H.
+  destruct (escape_body_byte b) as [|x [|e [|h1 [|h2 [|h3 [|h4 [|? ?]]]]]]]; try discriminate H.
+  - apply andb_true_iff in H. destruct H as [H Hb]. apply andb_true_iff in H. destruct H as [Hx Hc].
+    apply beqb_eq in Hx. subst x. apply negb_true_iff in Hb. apply negb_true_iff in Hc.
+    cbn [app gjson_unescape]. rewrite Hc, Hb. reflexivity.
+  - apply andb_true_iff in H. destruct H as [Hx Hd]. apply beqb_eq in Hx. subst x.
+    cbn [app gjson_unescape]. change (b2n c_bsl <? 32)%N with false. rewrite beqb_refl.
+    destruct (gj_escape e) as [d|]; [|discriminate Hd]. apply beqb_eq in Hd. subst d. reflexivity.
+  - repeat (apply andb_true_iff in H; let X := fresh in destruct H as [H X]).
+    apply beqb_eq in H. subst x.
+    cbn [app gjson_unescape]. change (b2n c_bsl <? 32)%N with false. rewrite beqb_refl.
+    destruct (gj_escape e); [discriminate|].
+    match goal with X : beqb e _ = true |- _ => rewrite X end.
+    match goal with X : (gj_rune _ _ _ _ <? 128)%N = true |- _ => rewrite X end.
+    match goal with X : beqb (n2b _) b = true |- _ => apply beqb_eq in X; rewrite X end.
+    reflexivity.
+Qed.
+
+Lemma json_wire_identity n : gjson_unescape (escape_body n) = n.
+Proof.
+  induction n as [|b r IH]; [reflexivity|].
+  change (escape_body (b :: r)) with (escape_body_byte b ++ escape_body r).
+  rewrite escape_body_byte_ok, IH. reflexivity.
+Qed.
+
+Lemma wire_json_exact n : wire_json n = WSeen n.
+Proof. unfold wire_json. rewrite json_wire_identity. reflexivity. Qed.
 
 (* what a plain byte is not *)
 Definition url_inert (b : byte) : bool :=
@@ -97,9 +144,9 @@ Proof.
   - exists (b :: r). reflexivity.
 Qed.
 
-Lemma wire_json_eq n :
-  ascii_only n = true -> wire_json n = WSeen (take_while json_ok n).
-Proof. intros H. unfold wire_json. rewrite H, json_wire_take_while by exact H. reflexivity. Qed.
+Lemma wire_json_prefix_eq n :
+  ascii_only n = true -> wire_json_prefix n = WSeen (take_while json_ok n).
+Proof. intros H. unfold wire_json_prefix. rewrite H, json_wire_take_while by exact H. reflexivity. Qed.
 
 (* ------------------------------------------------------------------ lists of inert bytes *)
 
@@ -244,6 +291,49 @@ Qed.
 
 (* ------------------------------------------------------------------ httproto *)
 
+Lemma url_parse_x_inert s :
+  inert s = true -> starts_with [c_sl; c_sl] s = false -> url_parse_x s = XOk s (Some s) [].
+Proof.
+  intros Hi Hs. unfold url_parse_x.
+  rewrite (cut_at_absent c_hash s (inert_not _ _ inert_hash Hi)).
+  cbn [url_unescape].
+  assert (Hctl : has_ctl s = false).
+  { apply existsb_absent. revert Hi. apply forallb_imp. intros b Hb. rewrite (inert_ctl _ Hb). reflexivity. }
+  rewrite Hctl, (inert_not_star _ Hi).
+  assert (Hg : get_scheme s = SchOk [] s).
+  { unfold get_scheme. rewrite <- (app_nil_r s) at 1.
+    apply get_scheme_no_colon; [exact (inert_not _ _ inert_colon Hi)|exact I]. }
+  rewrite Hg.
+  rewrite (last_byte_absent c_qm s (inert_not _ _ inert_qm Hi)). cbn [andb].
+  rewrite (cut_at_absent c_qm s (inert_not _ _ inert_qm Hi)).
+  cbn [negb andb].
+  assert (Hcol : existsb (beqb c_colon) (fst (fst (cut_at c_sl s))) = false).
+  { apply existsb_cut_prefix. apply existsb_absent. revert Hi. apply forallb_imp.
+    intros b Hb. pose proof (inert_colon _ Hb) as Hc. apply beqb_neq in Hc.
+    apply negb_true_iff. apply beqb_neq. intros E. apply Hc. symmetry. exact E. }
+  rewrite Hcol, Hs. rewrite andb_false_r. cbn [andb].
+  rewrite (url_unescape_no_pct s (inert_not _ _ inert_pct Hi)). reflexivity.
+Qed.
+
+(* url.Parse and its variant that also keeps the raw path agree *)
+Lemma url_parse_x_spec raw :
+  url_parse raw = match url_parse_x raw with
+                  | XErr => UErr | XAuthority => UAuthority | XOk p _ q => UOk p q
+                  end.
+Proof.
+  unfold url_parse, url_parse_x.
+  destruct (cut_at c_hash raw) as [[u frag] f].
+  destruct (has_ctl u); [reflexivity|].
+  destruct (bytes_eqb u [c_star]); [destruct (url_unescape frag); reflexivity|].
+  destruct (get_scheme u) as [|scheme rest0]; [reflexivity|].
+  destruct (last_byte_is c_qm rest0 && Nat.eqb (count_byte c_qm rest0) 1).
+  - repeat match goal with |- context [if ?c then _ else _] => destruct c; try reflexivity end;
+      destruct (url_unescape (removelast rest0)); try reflexivity; destruct (url_unescape frag); reflexivity.
+  - destruct (cut_at c_qm rest0) as [[a b] fl].
+    repeat match goal with |- context [if ?c then _ else _] => destruct c; try reflexivity end;
+      destruct (url_unescape a); try reflexivity; destruct (url_unescape frag); reflexivity.
+Qed.
+
 Lemma first_field_no_space s :
   forallb (fun b => negb (beqb b c_sp)) s = true -> first_field s = s.
 Proof. intros H. unfold first_field. rewrite (cut_at_absent c_sp s H). reflexivity. Qed.
@@ -251,12 +341,33 @@ Proof. intros H. unfold first_field. rewrite (cut_at_absent c_sp s H). reflexivi
 Lemma inert_ascii_only s : inert s = true -> ascii_only s = true.
 Proof. apply forallb_imp. exact inert_ascii. Qed.
 
-Lemma wire_http_inert s :
-  inert s = true -> starts_with [c_sl; c_sl] s = false -> wire_http s = WSeen s.
+Lemma plain_byte_no_escape b : wire_plain_byte b = true -> path_should_escape b = false.
+Proof. destruct b; vm_compute; intros H; try discriminate H; reflexivity. Qed.
+
+Lemma path_escape_plain s : forallb wire_plain_byte s = true -> path_escape s = s.
 Proof.
-  intros Hi Hs. unfold wire_http, wire_http_with.
+  induction s as [|b r IH]; intros H; [reflexivity|].
+  cbn [forallb] in H. apply andb_true_iff in H. destruct H as [Hb Hr].
+  change (path_escape (b :: r)) with (path_escape_byte b ++ path_escape r).
+  unfold path_escape_byte. rewrite (plain_byte_no_escape b Hb), (IH Hr). reflexivity.
+Qed.
+
+Lemma plain_inert n : forallb wire_plain_byte n = true -> inert n = true.
+Proof. apply forallb_imp. exact plain_byte_inert. Qed.
+
+Lemma escaped_path_plain s : forallb wire_plain_byte s = true -> escaped_path s (Some s) = s.
+Proof.
+  intros H. unfold escaped_path. rewrite (path_escape_plain s H), bytes_eqb_refl.
+  rewrite (inert_not_star s (plain_inert s H)). reflexivity.
+Qed.
+
+Lemma wire_http_plain s :
+  forallb wire_plain_byte s = true -> starts_with [c_sl; c_sl] s = false -> wire_http s = WSeen s.
+Proof.
+  intros Hp Hs. pose proof (plain_inert s Hp) as Hi. unfold wire_http, wire_http_gen.
   rewrite (inert_ascii_only _ Hi). cbn [negb].
-  rewrite (url_parse_inert s Hi Hs).
+  rewrite (url_parse_x_inert s Hi Hs). cbv beta iota.
+  pose proof (escaped_path_plain s Hp) as Ee. unfold bytes in *. rewrite Ee.
   assert (Hlf : existsb (beqb c_lf) s = false).
   { apply existsb_absent. revert Hi. apply forallb_imp. intros b Hb.
     pose proof (inert_lf _ Hb) as Hc. apply beqb_neq in Hc.
@@ -469,13 +580,15 @@ Proof. intros H. unfold first_field. apply cut_at_fst_app. exact H. Qed.
 Lemma first_field_cons x b : beqb x c_sp = false -> first_field (x :: b) = x :: first_field b.
 Proof. intros H. apply (first_field_app [x] b). cbn [forallb]. rewrite H. reflexivity. Qed.
 
-(* httproto carries the URI path of the caller's string, when that path is safe *)
-Lemma wire_http_uri_path n p q :
-  ascii_only n = true -> url_parse n = UOk p q ->
+(* httproto carries the URI path of the caller's string, when what packRequest writes for
+   it ([written p rp]) is that path itself and the path is safe; used for the code before the
+   repair ([written] = the path) and after it (EscapedPath, when it leaves the path as it is) *)
+Lemma wire_http_gen_uri_path written n p rp q :
+  ascii_only n = true -> url_parse_x n = XOk p rp q -> written p rp = p ->
   target_safe p = true -> query_safe q = true ->
-  wire_http n = WSeen p.
+  wire_http_gen written (fun x => x) n = WSeen p.
 Proof.
-  intros Ha Hu Hp Hq. unfold wire_http, wire_http_with. rewrite Ha, Hu. cbn [negb].
+  intros Ha Hu He Hp Hq. unfold wire_http_gen. rewrite Ha, Hu. cbv beta iota. unfold bytes in *. rewrite He. cbn [negb].
   pose proof Hp as Hp'. unfold target_safe in Hp'. apply andb_true_iff in Hp'. destruct Hp' as [Hb _].
   assert (Hsp : forallb (fun b => negb (beqb b c_sp)) p = true)
     by (apply safe_not; [intros b H; apply tsb_split in H; tauto|exact Hb]).
@@ -499,9 +612,6 @@ Qed.
 
 (* ------------------------------------------------------------------ all protocols *)
 
-Lemma plain_inert n : forallb wire_plain_byte n = true -> inert n = true.
-Proof. apply forallb_imp. exact plain_byte_inert. Qed.
-
 Lemma wire_plain_split n :
   wire_plain n = true ->
   forallb wire_plain_byte n = true /\ (length n <=? 255)%nat = true /\ starts_with [c_sl; c_sl] n = false.
@@ -518,44 +628,30 @@ Proof.
   pose proof (plain_inert n P) as I.
   destruct p; cbn [wire].
   - rewrite L. reflexivity.
-  - rewrite (wire_json_eq n (inert_ascii_only n I)).
-    rewrite take_while_all; [reflexivity|]. revert I. apply forallb_imp. exact inert_json.
+  - apply wire_json_exact.
   - rewrite (inert_ascii_only n I). reflexivity.
   - reflexivity.
-  - rewrite (Hs eq_refl). apply wire_http_inert; assumption.
-  - rewrite (wire_json_eq n (inert_ascii_only n I)).
-    rewrite take_while_all; [reflexivity|]. revert I. apply forallb_imp. exact inert_json.
+  - rewrite (Hs eq_refl). apply wire_http_plain; assumption.
+  - apply wire_json_exact.
   - reflexivity.
 Qed.
 
-(* outside httproto a name arrives as a prefix of what was asked, and whole except over
-   the two json protocols *)
-Lemma wire_seen_prefix p s n n' :
-  p <> PHttp -> wire p s n = WSeen n' ->
-  (exists t, n = n' ++ t) /\ (p <> PJson -> p <> PWsJson -> n' = n).
+(* outside httproto the name that arrives is the name asked for, whatever its bytes *)
+Lemma wire_seen_same p s n n' :
+  p <> PHttp -> wire p s n = WSeen n' -> n' = n.
 Proof.
   intros Hp H.
-  assert (Hid : n' = n -> (exists t, n = n' ++ t) /\ (p <> PJson -> p <> PWsJson -> n' = n)).
-  { intros E. subst n'. split; [exists []; symmetry; apply app_nil_r|reflexivity]. }
-  assert (Hj : wire_json n = WSeen n' -> (exists t, n = n' ++ t) /\ (p <> PJson -> p <> PWsJson -> n' = n) \/ True).
-  { intros _. right. exact I. }
   destruct p; cbn [wire] in H; try (exfalso; apply Hp; reflexivity).
-  - destruct (length n <=? 255)%nat; [|discriminate]. injection H as H. apply Hid. symmetry. exact H.
-  - unfold wire_json in H. destruct (ascii_only n) eqn:A; [|discriminate]. injection H as H.
-    rewrite (json_wire_take_while n A) in H. subst n'. split; [apply take_while_prefix|]. intros X. exfalso. apply X. reflexivity.
-  - destruct (ascii_only n); [|discriminate]. injection H as H. apply Hid. symmetry. exact H.
-  - injection H as H. apply Hid. symmetry. exact H.
-  - unfold wire_json in H. destruct (ascii_only n) eqn:A; [|discriminate]. injection H as H.
-    rewrite (json_wire_take_while n A) in H. subst n'. split; [apply take_while_prefix|]. intros _ X. exfalso. apply X. reflexivity.
-  - injection H as H. apply Hid. symmetry. exact H.
+  - destruct (length n <=? 255)%nat; [|discriminate]. injection H as H. symmetry. exact H.
+  - rewrite wire_json_exact in H. injection H as H. symmetry. exact H.
+  - destruct (ascii_only n); [|discriminate]. injection H as H. symmetry. exact H.
+  - injection H as H. symmetry. exact H.
+  - rewrite wire_json_exact in H. injection H as H. symmetry. exact H.
+  - injection H as H. symmetry. exact H.
 Qed.
 
 Lemma wire_http_push_refused n : wire PHttp PUSH n = WRefused.
 Proof. reflexivity. Qed.
-
-Lemma wire_json_exact n :
-  ascii_only n = true -> forallb json_ok n = true -> wire_json n = WSeen n.
-Proof. intros A J. rewrite (wire_json_eq n A), (take_while_all _ _ J). reflexivity. Qed.
 
 (* ------------------------------------------------------------------ wire, then lookup *)
 
@@ -583,15 +679,15 @@ Proof.
   apply (dispatch_exact_lemma k ops r lg H s n' h Hn). exact D.
 Qed.
 
-(* raw, protobuf, thrift, websocket-protobuf: the name that arrives is the name asked for,
-   whatever its bytes - the handler runs only under a name its registration returned *)
+(* every protocol but httproto: the name that arrives is the name asked for, whatever its
+   bytes - the handler runs only under a name its registration returned *)
 Lemma dispatch_wire_transparent k ops r lg p s n h :
   run k init ops = Ok (r, lg) ->
-  p <> PHttp -> p <> PJson -> p <> PWsJson ->
+  p <> PHttp ->
   dispatch_wire p r s n = WDispatched (DRun h false) -> In (s, h, n) (returned_log k ops).
 Proof.
-  intros H P1 P2 P3 D. destruct (dispatch_wire_only_under k ops r lg p s n h H D) as (n' & W & I).
-  destruct (wire_seen_prefix p s n n' P1 W) as [_ E]. rewrite <- (E P2 P3). exact I.
+  intros H P1 D. destruct (dispatch_wire_only_under k ops r lg p s n h H D) as (n' & W & I).
+  rewrite <- (wire_seen_same p s n n' P1 W). exact I.
 Qed.
 
 (* nothing arrives: nothing runs *)
@@ -606,28 +702,32 @@ Definition wx_ops : list op := [OReg CALL [] (IFunc (str "Test") (str "h"))].
 Ltac not_in_log := let h' := fresh in let E := fresh in
   intros h' E; vm_compute in E; destruct E as [E|[]]; discriminate E.
 
-(* json: a control byte after a registered name is cut off with everything behind it *)
-Lemma json_name_truncated :
+(* json BEFORE the repair: a control byte after a registered name was cut off with everything
+   behind it; now the name arrives whole and is Not Found *)
+Lemma json_name_truncated_prefix :
   exists ops r lg h n,
     run MHTTP init ops = Ok (r, lg) /\ ascii_only n = true /\
     (forall h', ~ In (CALL, h', n) (returned_log MHTTP ops)) /\
     dispatch r CALL n = DNotFound /\
-    dispatch_wire PJson r CALL n = WDispatched (DRun h false) /\
-    dispatch_wire PWsJson r CALL n = WDispatched (DRun h false).
+    dispatch_wire_prefix PJson r CALL n = WDispatched (DRun h false) /\
+    dispatch_wire_prefix PWsJson r CALL n = WDispatched (DRun h false) /\
+    dispatch_wire PJson r CALL n = WDispatched DNotFound /\
+    dispatch_wire PWsJson r CALL n = WDispatched DNotFound.
 Proof.
   exists wx_ops. eexists. eexists. exists (str "h"). exists (str "/test" ++ [x00]).
   split; [vm_compute; reflexivity|]. split; [vm_compute; reflexivity|].
   split; [not_in_log|]. repeat split; vm_compute; reflexivity.
 Qed.
 
-(* httproto: the path is written unescaped, so an escaped '?' (or '#', blank, '%') in the
-   name asked for becomes a delimiter on the way *)
-Lemma http_target_not_escaped :
+(* httproto BEFORE the repair: the path was written unescaped, so an escaped '?' (or '#',
+   blank, '%') in the name asked for became a delimiter on the way; now the path arrives *)
+Lemma http_target_not_escaped_prefix :
   exists ops r lg h n path q,
     run MHTTP init ops = Ok (r, lg) /\ ascii_only n = true /\ url_parse n = UOk path q /\
     (forall h', ~ In (CALL, h', path) (returned_log MHTTP ops)) /\
     dispatch r CALL path = DNotFound /\
-    dispatch_wire PHttp r CALL n = WDispatched (DRun h false).
+    dispatch_wire_prefix PHttp r CALL n = WDispatched (DRun h false) /\
+    wire PHttp CALL n = WSeen path /\ dispatch_wire PHttp r CALL n = WDispatched DNotFound.
 Proof.
   exists wx_ops. eexists. eexists. exists (str "h"). exists (str "/test%3fx"). exists (str "/test?x"). exists [].
   split; [vm_compute; reflexivity|]. split; [vm_compute; reflexivity|].
@@ -635,10 +735,32 @@ Proof.
   split; [not_in_log|]. repeat split; vm_compute; reflexivity.
 Qed.
 
-(* ... and a decoded '%' that no longer starts an escape ends the session *)
-Lemma http_target_breaks_session :
-  url_parse (str "/test%25") = UOk (str "/test%") [] /\ wire PHttp CALL (str "/test%25") = WBroken.
-Proof. split; vm_compute; reflexivity. Qed.
+(* ... and a decoded '%' that no longer starts an escape ended the session *)
+Lemma http_target_breaks_session_prefix :
+  url_parse (str "/test%25") = UOk (str "/test%") [] /\
+  wire_prefix PHttp CALL (str "/test%25") = WBroken /\
+  wire PHttp CALL (str "/test%25") = WSeen (str "/test%").
+Proof. repeat split; vm_compute; reflexivity. Qed.
+
+(* the inputs recorded with the finding, on the repaired code: the URI path arrives *)
+Lemma http_repaired_inputs :
+  Forall (fun np => url_parse (fst np) = UOk (snd np) [] /\ wire PHttp CALL (fst np) = WSeen (snd np))
+    [(str "/test%3fx", str "/test?x"); (str "/test%23x", str "/test#x"); (str "/test%20x", str "/test x");
+     (str "/%2574est", str "/%74est"); (str "/test%25", str "/test%"); (str "/test x", str "/test x");
+     (str "/test%0d%0aX-Y: z", str "/test" ++ [n2b 13; n2b 10] ++ str "X-Y: z")].
+Proof. repeat constructor; vm_compute; reflexivity. Qed.
+
+(* what is left (finding http-target-not-escaped, narrowed): when the caller's raw path is not
+   a valid encoding, EscapedPath falls back to the default escaping of the path, which leaves
+   a ':' in a rootless first segment (and a leading "//") raw; the receiver reads a scheme
+   (an authority).  "a%3ab c" asks for the path "a:b c"; the empty name is looked up. *)
+Lemma http_escaped_path_residue :
+  url_parse (str "a%3ab c") = UOk (str "a:b c") [] /\
+  wire PHttp CALL (str "a%3ab c") = WSeen [] /\
+  (forall r, dispatch_wire PHttp r CALL (str "a%3ab c") = WDispatched DBadMessage) /\
+  wire PHttp CALL (str "a%3ab") = WSeen (str "a:b") /\
+  wire PHttp CALL (str "%2f/a b") = WOutside.
+Proof. repeat split; vm_compute; reflexivity. Qed.
 
 (* a receiver that cleans the path it read: names no registration returned run the handler *)
 Definition dispatch_wire_cleaning (r : router) (n : bytes) : wire_dispatch :=
